@@ -6,7 +6,7 @@
    double), including q / -q pairs and elements with w < 0 and a tiny vector part (the defect repaired by
    fix edde36d); not proved. *)
 From Coq Require Import Reals List Lra.
-From Manif Require Import Scalar Mat Group RInst Generic LieSpec SO2 SE2 Rn SE2Proofs RnProofs Log_SE2.
+From Manif Require Import Scalar Mat Group RInst Generic LieSpec SO2 SE2 SO3 Rn SE2Proofs SO3Proofs RnProofs Log_SE2 Approx_Inst.
 Import ListNotations.
 Local Open Scope R_scope.
 
@@ -27,6 +27,16 @@ Print Assumptions C03_SE2_log_exp.
 
 Theorem C03_Rn n t : rn_log RS (rn_exp RS t) = t /\ rn_exp RS (rn_log RS t) = t /\ g_log (Rn RS n) t = t.
 Proof. repeat split. Qed.
+
+(* two coefficient vectors of one rotation (q and -q) have the same logarithm: any quaternion, both branches of
+   SO3::log, off the exact half turn w = 0 (where the rotation has two principal logarithms); the SE3-family logs
+   are functions of this one and of the other coefficients, which q -> -q does not touch *)
+Theorem C03_SO3_log_double_cover eps x y z w : 0 < eps -> w <> 0 ->
+  so3_log RS eps [- x; - y; - z; - w] = so3_log RS eps [x; y; z; w].
+Proof. intros H. exact (so3_log_neg eps H x y z w). Qed.
+Theorem C03_SO3_log_conj eps x y z w : so3_log RS eps [- x; - y; - z; w] = @vneg RS (so3_log RS eps [x; y; z; w]).
+Proof. exact (so3_log_conj eps x y z w). Qed.
+Print Assumptions C03_SO3_log_double_cover.
 
 Example C03_nonvacuous : se2_valid [1000000; -3; -3/5; 4/5] /\ - PI < 1 <= PI.
 Proof. split; [exists 1000000, (-3), (-3/5), (4/5); split; [reflexivity|lra] | pose proof PI2_1; pose proof PI_RGT_0; lra]. Qed.
